@@ -263,6 +263,38 @@ def run(ctx):
             body = blk.body if hasattr(blk, "body") and b in blk.body else getattr(blk, "orelse", [])
             setter_before = any(U(s) == "self.timed_out = True" for s in body[: body.index(b)]) if b in body else False
             guarded = any(p and U(e) == "self.timed_out" for e, p in C.facts_at(b))
+
+            def only_after_timeout(node, depth=0):
+                """every way control reaches `node` comes from the setter, from the true side of a test of the flag, or from an
+                exit that itself is only taken after the time-out (an inner `break` that falls out of a for/else)"""
+                if depth > 4:
+                    return False
+                preds = list(cfg.G.predecessors(cfg.node_of(node)))
+                if not preds:
+                    return False
+                for p_ in preds:
+                    if isinstance(p_, str):
+                        return False
+                    if U(p_) == "self.timed_out = True":
+                        continue
+                    if isinstance(p_, ast.If):
+                        nf_ = C.norm_facts_of_test(p_.test)
+                        tside = [pol_ for t_, pol_ in nf_ if t_ == "self.timed_out"]
+                        if len(nf_) == 1 and tside and cfg.node_of(node) in cfg.succ_on(p_, tside[0]) and cfg.node_of(node) not in cfg.succ_on(p_, not tside[0]):
+                            continue
+                        return False
+                    if isinstance(p_, ast.Break):
+                        blk_ = getattr(p_, "_parent", None)
+                        body_ = blk_.body if hasattr(blk_, "body") and p_ in blk_.body else getattr(blk_, "orelse", [])
+                        if p_ in body_ and any(U(s_) == "self.timed_out = True" for s_ in body_[: body_.index(p_)]):
+                            continue
+                        if only_after_timeout(p_, depth + 1):
+                            continue
+                        return False
+                    return False
+                return True
+            if not (setter_before or guarded) and only_after_timeout(b):
+                guarded = True
             if setter_before or guarded:
                 ctx.node_ok("R1", f, b, "early exit from the search loop only after timed_out was set")
             else:
@@ -430,7 +462,12 @@ def run(ctx):
             continue
         st = cfg.node_of(c)
         ok = False
-        if isinstance(st, ast.For) and C.in_subtree(c, st.iter):
+        if isinstance(st, ast.Assign) and isinstance(st.targets[0], ast.Name) and st.value is c:
+            # the generator is held in a local and consumed by one loop
+            cons = [l for l in ast.walk(fi.node) if isinstance(l, ast.For) and U(l.iter) == st.targets[0].id]
+            if len(cons) == 1:
+                st = cons[0]
+        if isinstance(st, ast.For) and (C.in_subtree(c, st.iter) or isinstance(st.iter, ast.Name)):
             # loop consuming the generator: a deadline test in every iteration that leaves the loop
             for n in st.body:
                 if isinstance(n, ast.If) and any(isinstance(x, ast.Break) for x in n.body) and _is_timeout_test(n.test, n):
